@@ -290,14 +290,28 @@ def replay(path):
             tname = m.group(1)
             inject = "\n    " + src.replace("\n", "\n    ") + "\n"
             txt = open(target).read()
-            # put the test inside the module that defines the harness (before its final brace)
-            idx = txt.rstrip().rfind("}")
+            # put the test inside the module that defines the harness (before that module's closing brace; the file may
+            # hold several harness modules, one per overlay)
+            import rustscan
+            fpos = re.search(r"fn\s+%s\s*\(" % re.escape(h.name), txt).start()
+            mods = [m for m in re.finditer(r"(?m)^\s*(?:pub(?:\([a-z]+\))?\s+)?mod\s+\w+\s*\{", txt) if m.start() < fpos]
+            mask = rustscan.code_mask(txt)
+            idx = None
+            for m in reversed(mods):
+                close = rustscan.match_close(txt, mask, m.end() - 1)
+                if close > fpos:
+                    idx = close
+                    break
+            if idx is None:
+                idx = txt.rstrip().rfind("}")
             open(target, "w").write(txt[:idx] + inject + txt[idx:])
-            cmd = ["cargo", "kani", "playback", "-p", h.crate, "--target-dir", common.KANI_TARGET + "-playback",
-                   "-Z", "concrete-playback", "--", tname]
-            rc, out, secs, reason = common.run(cmd, cwd=tree, timeout=3600)
-            print(out[-4000:])
-            failed = re.search(r"test result: FAILED|panicked at", out) is not None
+            cmd = ["cargo", "kani", "playback", "-p", h.crate, "-Z", "concrete-playback", "--", tname]
+            env = dict(common.ENV)
+            env["CARGO_TARGET_DIR"] = common.KANI_TARGET + "-playback"
+            rc, out, secs, reason = common.run(cmd, cwd=tree, timeout=3600, env=env)
+            lines = [l for l in out.splitlines() if not l.lstrip().startswith(("Compiling", "Running `", "warning", "-->", "|", "=")) and len(l) < 600]
+            print("\n".join(lines[-60:]))
+            failed = re.search(r"test result: FAILED|panicked at|test exited abnormally|SIGABRT|SIGSEGV|memory allocation of \d+ bytes failed|has overflowed its stack", out) is not None
             print("REPLAY:", "violation reproduced on the real code" if failed else "not reproduced")
             return 1 if failed else 0
         finally:
